@@ -10,7 +10,7 @@
    them (AllValidIn for the version filter, TypeAgrees for the kept element type). *)
 From AV Require Import Base.Bytes Base.Outcome Hash.HashModel Tree.Heap Tree.Ops Tree.Script Tree.Inv Tree.Copy
   Tree.CopyProofsDefs Tree.CopyProofsDeep Tree.CopyProofsCreate Tree.CopyProofsTop Tree.CopyProofsBridge
-  Tree.CopyProofsTiny Tree.Frame Tree.CopyProofsReg Tree.CopyProofsFK Tree.CopyProofsDup.
+  Tree.CopyProofsTiny Tree.Frame Tree.CopyProofsReg Tree.CopyProofsFK Tree.CopyProofsDup Tree.CopyProofsRegId.
 Open Scope list_scope.
 Open Scope N_scope.
 
@@ -182,3 +182,26 @@ Theorem C13_duplicate : forall T tab_el tab_en check_fn LATEST root_attrs m w r 
   | OK c => DupResult m w c w'
   end.
 Proof. exact duplicate_spec. Qed.
+
+(* REGISTERED (identifiable elements): in terms of the model's own queries (IsIdent: is_identifiable answers true;
+   RPath w c j q: j is reached from c through content lists, q = the concatenated "/" + item_name segments of c .. j).
+   After a successful copy, if no two identifiable elements of the copy have the same relative path (UniqueRel; it
+   excludes the known finding C13-copy-nameless-shortname), every identifiable element j of the copied subtree is
+   found by get_element_by_path under (path of the destination) ++ (relative path of j) in the destination's model *)
+Theorem C13_registered_ids : forall T LATEST h other pos w c w' m,
+  Closed w -> copy_call T LATEST h other pos w = Val (OK c, w') ->
+  model_of h w = Val (OK m, w) ->
+  exists nh w1 path,
+    w_nodes w h = Some nh /\ Ext w w1 /\ path_unchecked T nh w1 = Val (OK path, w1) /\
+    (UniqueRel T w' c -> forall j q, RPath T w' c j q -> IsIdent T w' j -> HasId w' m (path ++ q) j).
+Proof. exact copy_registered_ids. Qed.
+
+(* the registration walk and the path index, for any subtree: every entry afterwards is an old one or justified by
+   an identifiable element of the subtree (A), no key disappears (B), under UniqueRel everything is registered (C) *)
+Theorem C13_register_walk_ids : forall T f m cur i w r w',
+  register_subtree T f m cur i w = Val (r, w') ->
+  w_nodes w' = w_nodes w /\
+  (forall k j, HasId w' m k j -> HasId w m k j \/ J T cur i w k j) /\
+  (forall k j, HasId w m k j -> exists j', HasId w' m k j') /\
+  (UniqueRel T w i -> forall k j, J T cur i w k j -> HasId w' m k j).
+Proof. exact register_subtree_ids. Qed.
